@@ -78,6 +78,8 @@ def make_env(cls: dict):
             env = W.FlattenObservation(env)
         elif spec[0] == "ClipObservation":
             env = W.ClipObservation(env)
+        elif spec[0] == "RescaleObservation":
+            env = W.RescaleObservation(env, jnp.array(float(spec[1])), jnp.array(float(spec[2])))
         elif spec[0] == "Identity":
             env = W.Identity(env)
         elif spec[0] == "ClipReward":
